@@ -25,6 +25,7 @@ func main() {
 	trace := flag.Bool("trace", false, "")
 	verbose := flag.Bool("v", false, "")
 	profile := flag.Bool("profile", false, "")
+	noIfConv := flag.Bool("no-ifconv", false, "")
 	flag.Parse()
 	ov, err := symgo.OverlayFromDir(*harness, *repo, false)
 	if err != nil {
@@ -49,6 +50,7 @@ func main() {
 			cfg.Params[a[:i]] = v
 		}
 	}
+	cfg.NoIfConv = *noIfConv
 	if *profile {
 		cfg.Profile = map[string]int{}
 		*workers = 1
@@ -56,7 +58,7 @@ func main() {
 	}
 	rep := prog.Explore(symgo.Job{Fn: f, Cfg: cfg, Workers: *workers, Solver: *solver, MaxPaths: *maxPaths, SampleMax: 3, Trace: *trace, Deadline: time.Now().Add(10 * time.Minute)})
 	fmt.Printf("paths=%d kinds=%v asserts=%d(sym %d) decisions=%d steps=%d wall=%v truncated=%v\n", rep.Paths, rep.ByKind, rep.Asserts, rep.AssertsSym, rep.Decisions, rep.Steps, rep.Wall, rep.Truncated)
-	fmt.Printf("solver: %+v\n", rep.Solver)
+	fmt.Printf("solver: %+v ifconv=%d\n", rep.Solver, rep.IfConv)
 	var rs []string
 	for k := range rep.Reached {
 		rs = append(rs, k)
@@ -90,6 +92,7 @@ func main() {
 			b, _ := json.Marshal(v)
 			fmt.Println("SAMPLE", string(b))
 		}
+		fmt.Println("forks:", rep.Forks)
 		fmt.Println("funcs:", rep.Funcs)
 		fmt.Println("stubs:", rep.Stubs)
 		fmt.Println("notes:", rep.Notes)
